@@ -70,17 +70,19 @@ Definition observe_at (h : heap) (root : id) : option otree :=
   obs_tree big big h root (live big h root []) root.
 Definition observe (s : state) : option otree := observe_at (st_heap s) (st_root s).
 (* the node where get_location() of x's tree starts: up the recorded parents while `if self.parent:` holds *)
-Fixpoint top_of (fuel : nat) (h : heap) (x : id) : id :=
+Fixpoint top_from (fuel : nat) (h : heap) (seen : list id) (m x : id) : id :=
   match fuel with
-  | O => x
-  | S f => match get h x with
-           | Some n => match parent n with
-                       | Some p => match get h p with Some np => if truthy np then top_of f h p else x | None => x end
-                       | None => x
-                       end
-           | None => x
-           end
+  | O => m
+  | S f => if existsb (Nat.eqb x) seen then m      (* the recorded parents form a cycle (after a failed assignment): m itself *)
+           else match get h x with
+                | Some n => match parent n with
+                            | Some p => match get h p with Some np => if truthy np then top_from f h (x :: seen) m p else x | None => x end
+                            | None => x
+                            end
+                | None => x
+                end
   end.
+Definition top_of (fuel : nat) (h : heap) (x : id) : id := top_from fuel h [] x x.
 (* the subtree below a held node m that is no longer in the program; positions are checked from the top of m's own tree *)
 (* the recorded position of a node without parent says nothing: not compared *)
 Definition blank_root (t : otree) : otree :=
@@ -118,19 +120,22 @@ Fixpoint otree_eqb (a b : otree) : bool :=
          end) cs ds
   end.
 
-Inductive okind := KDone | KIndex | KType | KValue | KRuntime | KAttr | KAssert | KBadPath.
+(* round 3: KRecursion = RecursionError (the model runs out of fuel: only on cyclic structures); KCycle / KRecCycle = the
+   operation completed / raised RecursionError and left a cyclic structure behind: the history is cut there *)
+Inductive okind := KDone | KIndex | KType | KValue | KRuntime | KAttr | KAssert | KBadPath | KRecursion | KCycle | KRecCycle.
 Definition kind_of (o : outcome) : option okind :=
   match o with
   | Done => Some KDone
   | BadPath => Some KBadPath
   | Raised ExIndex => Some KIndex | Raised ExType => Some KType | Raised ExValue => Some KValue
   | Raised ExRuntime => Some KRuntime | Raised ExAttr => Some KAttr | Raised ExAssert => Some KAssert
-  | Raised ExFuel | Raised ExDangling => None
+  | Raised ExFuel => Some KRecursion
+  | Raised ExDangling => None
   end.
 Definition okind_eqb (a b : okind) : bool :=
   match a, b with
   | KDone, KDone | KIndex, KIndex | KType, KType | KValue, KValue | KRuntime, KRuntime | KAttr, KAttr
-  | KAssert, KAssert | KBadPath, KBadPath => true
+  | KAssert, KAssert | KBadPath, KBadPath | KRecursion, KRecursion | KCycle, KCycle | KRecCycle, KRecCycle => true
   | _, _ => false
   end.
 
@@ -171,7 +176,7 @@ Fixpoint corr_steps (s : state) (steps : list (op * sobs)) : bool :=
       | _, _ => false
       end
   end.
-Definition fop_op (o : fop) : op := match o with FMain o' => o' | FAt _ o' => o' | FHold _ => ONop end.
+Definition fop_op (o : fop) : op := match o with FMain o' => o' | FAt _ o' => o' | _ => ONop end.
 Definition opt_otree_eqb (a b : option otree) : bool :=
   match a, b with Some x, Some y => otree_eqb x y | None, None => true | _, _ => false end.
 Definition observe_held (fs : fstate) : option (list (option otree)) :=
@@ -185,13 +190,37 @@ Definition fmodel_eq (fs fs' : fstate) (o : fop) : option bool :=
                 | Some m => model_eq (mkState (st_heap (f_main fs')) m 0) o'
                 | None => None
                 end
-  | FHold _ => None
+  | _ => None
   end.
+(* a node that is its own descendant somewhere below x (path longer than the heap: pigeonhole) *)
+Fixpoint cyc (fuel : nat) (h : heap) (stack : list id) (x : id) : bool :=
+  match fuel with
+  | O => true
+  | S f => if existsb (Nat.eqb x) stack then true
+           else match get h x with
+                | None => false
+                | Some n => existsb (cyc f h (x :: stack)) (children n)
+                end
+  end.
+Definition fcyclic (fs : fstate) : bool :=
+  let h := st_heap (f_main fs) in
+  let big := S (S (length h)) in
+  cyc big h [] (st_root (f_main fs)) || existsb (cyc big h []) (f_held fs).
+Definition is_cut (k : okind) : bool := match k with KCycle | KRecCycle => true | _ => false end.
 Fixpoint fcorr_steps (fs : fstate) (steps : list (fop * fsobs)) : bool :=
   match steps with
   | [] => true
   | (o, ob) :: r =>
       let '(fs', out) := fstep fs o in
+      if is_cut (s_out (fs_main ob))
+      then (* the structure became cyclic: nothing can be observed, the history ends here *)
+           fcyclic fs' && match out, r with
+                          | Done, [] => okind_eqb KCycle (s_out (fs_main ob))
+                          | Raised ExFuel, [] => okind_eqb KRecCycle (s_out (fs_main ob))
+                          | _, _ => false
+                          end
+      else
+      negb (fcyclic fs') &&
       match kind_of out, observe (f_main fs'), observe_held fs' with
       | Some k, Some t, Some hs =>
           okind_eqb k (s_out (fs_main ob)) && otree_eqb t (s_tree (fs_main ob))
@@ -273,9 +302,13 @@ Definition check_spec (c : case) : bool :=
   match c with
   | CHist _ steps => forallb (fun '(o, ob) => spec_tree (s_tree ob) [] true 0 [] && spec_eq o ob) steps
   | CForest _ steps =>
-      (* the program keeps the invariant whatever is done to nodes that dropped out of it (those are compared with the
-         model by check_corr, but are not program trees: e.g. the husk of a merged child still lists its former children) *)
-      forallb (fun '(o, ob) => spec_tree (s_tree (fs_main ob)) [] true 0 []) steps
+      (* the program keeps the invariant whatever is done to nodes that dropped out of it, and (round 3, after the merged
+         child is emptied) so does every tree the user still holds: durations, positions and parents below the held node,
+         its own recorded location; a cyclic structure is no tree at all *)
+      forallb (fun '(o, ob) => negb (is_cut (s_out (fs_main ob)))
+                               && spec_tree (s_tree (fs_main ob)) [] true 0 []
+                               && forallb (fun t => match t with Some t' => spec_tree t' [] true 0 [] | None => true end)
+                                          (fs_held ob)) steps
   | CCrash => false
   end.
 
